@@ -6,6 +6,7 @@ import (
 	"bytes"
 	"fmt"
 	"io"
+	"net/http"
 	"strings"
 	"sync"
 	"sync/atomic"
@@ -156,4 +157,107 @@ func TestVerifC20TracerInstances(t *testing.T) {
 	}
 	rep.Sample(map[string]any{"encoding": "zstd", "schedule": "Reset(A) Reset(B) Read(A) Read(B)", "expect": "A's message from A, B's from B"})
 	rep.RequireMin("interleaved_ok", 12)
+}
+
+// TestVerifC20TracerAfterDamage: the body tracer re-uses one decompressor per
+// body; a damaged compressed end-of-stream message must not change how the
+// next, intact one is reported.
+func TestVerifC20TracerAfterDamage(t *testing.T) {
+	rep := verifkit.Begin("C20", "tracer-after-damage", "6 encodings x Connect streaming and gRPC-Web response bodies with the encoding negotiated and TWO compressed end-of-stream messages: the first damaged {truncated at every 7th offset, each of the last 8 bytes flipped, garbage}, the second intact; traced by the real body reader in 1-3 chunks; oracle: the last end-of-stream event carries exactly the intact content; distinct = (encoding, protocol, damage)")
+	defer rep.Write()
+	names := []string{"identity", "gzip", "br", "zstd", "deflate", "snappy"}
+	for _, name := range names {
+		for _, proto := range []string{"connect", "grpc-web"} {
+			good := `{"metadata":{"x-second":["intact"]}}`
+			first := `{"error":{"code":"internal","message":"` + strings.Repeat("first message, to be damaged; ", 20) + `"}}`
+			flag, hdr, ct := byte(2), "Connect-Content-Encoding", "application/connect+proto"
+			if proto == "grpc-web" {
+				good = "grpc-status: 0\r\nx-second: intact\r\n"
+				first = "grpc-status: 13\r\ngrpc-message: " + strings.Repeat("first%20message ", 30) + "\r\n"
+				flag, hdr, ct = 0x80, "Grpc-Encoding", "application/grpc-web+proto"
+			}
+			zFirst, _ := verifkit.IndepCompress(name, []byte(first))
+			zGood, _ := verifkit.IndepCompress(name, []byte(good))
+			var damages [][]byte
+			var labels []string
+			for cut := 1; cut < len(zFirst); cut += 7 {
+				damages = append(damages, append([]byte(nil), zFirst[:cut]...))
+				labels = append(labels, fmt.Sprintf("truncated@%d", cut))
+			}
+			for k := 1; k <= 8 && k <= len(zFirst); k++ {
+				d := append([]byte(nil), zFirst...)
+				d[len(d)-k] ^= 0x10
+				damages = append(damages, d)
+				labels = append(labels, fmt.Sprintf("flip@-%d", k))
+			}
+			damages = append(damages, []byte("\xff\xfe\xfd not a compressed stream"))
+			labels = append(labels, "garbage")
+			for di, dmg := range damages {
+				env := func(fl byte, p []byte) []byte {
+					b := make([]byte, 5+len(p))
+					b[0] = fl
+					b[1], b[2], b[3], b[4] = byte(len(p)>>24), byte(len(p)>>16), byte(len(p)>>8), byte(len(p))
+					copy(b[5:], p)
+					return b
+				}
+				body := append(env(0, []byte("data")), env(flag|1, dmg)...)
+				body = append(body, env(flag|1, zGood)...)
+				rep.Eval(1)
+				rep.DistinctKey(name, proto, labels[di])
+				coll := &vfCollector{}
+				bld := vfNewBuilder(coll, false)
+				h := http.Header{"Content-Type": {ct}, hdr: {name}}
+				w := map[string]any{"encoding": name, "protocol": proto, "damage_of_first_end_stream_message": labels[di]}
+				pn := verifkit.Catch(func() {
+					rd := newReader(h, io.NopCloser(&vfChunked{data: body, chunk: []int{len(body), 17, 3}[di%3]}), false, bld, func() {})
+					_, _ = io.Copy(io.Discard, rd)
+					bld.build()
+				})
+				if pn != nil {
+					rep.Violation("compress/"+name+"/tracer-after-damage/panic/"+pn.Site, pn.Value, w)
+					continue
+				}
+				ts := coll.Traces()
+				if len(ts) != 1 {
+					rep.Violation("compress/"+name+"/tracer-after-damage/trace-count", fmt.Sprintf("%d traces", len(ts)), w)
+					continue
+				}
+				last := ""
+				found := false
+				for _, e := range ts[0].Events {
+					if es, ok := e.(*ResponseBodyEndStream); ok {
+						last, found = es.Content, true
+					}
+				}
+				if !found || last != good {
+					rep.Violation("compress/"+name+"/tracer-after-damage/intact-message-reported-differently", fmt.Sprintf("the intact end-of-stream message after a damaged one (%s) is reported as %q, its content is %q", labels[di], verifkit.Trunc(last, 80), good), w)
+				} else {
+					rep.Count("intact_after_damage_ok", 1)
+				}
+			}
+		}
+	}
+	rep.Sample(map[string]any{"encoding": "gzip", "damage": "checksum byte flipped", "expect": "second end-of-stream event = the intact content only"})
+	rep.RequireMin("intact_after_damage_ok", 100)
+}
+
+type vfChunked struct {
+	data  []byte
+	chunk int
+}
+
+func (c *vfChunked) Read(p []byte) (int, error) {
+	if len(c.data) == 0 {
+		return 0, io.EOF
+	}
+	n := c.chunk
+	if n > len(c.data) {
+		n = len(c.data)
+	}
+	if n > len(p) {
+		n = len(p)
+	}
+	copy(p, c.data[:n])
+	c.data = c.data[n:]
+	return n, nil
 }
